@@ -333,8 +333,12 @@ flexrule	:  '^' rule
 					lwarn(
 			"all start conditions already have <<EOF>> rules" );
 
-				else
-					build_eof_action();
+				/* Even with no start condition left the action
+				 * text that follows must be opened properly
+				 * (it becomes unreachable code), and the rule
+				 * must not be counted as a normal rule.
+				 */
+				build_eof_action();
 				}
 			}
 
